@@ -2,5 +2,6 @@ SPECIFICATION Spec
 CONSTANTS
   EdgeMap = FALSE
   FixedStrip = TRUE
+  ParenTopOr = TRUE
 POSTCONDITION Accepted
 CHECK_DEADLOCK FALSE
